@@ -37,7 +37,7 @@ from engines import refstore, sqlgen
 
 BLOCK = 12          # statements per run
 GENERATED = 48      # seeded generated databases in the corpus
-KINDS = ('tail', 'trunc', 'tok_del', 'tok_dup', 'tok_swap', 'tok_flip', 'chr_flip', 'stmt_drop', 'stmt_dup', 'stmt_swap', 'soup', 'redos')
+KINDS = ('odd', 'tail', 'trunc', 'tok_del', 'tok_dup', 'tok_swap', 'tok_flip', 'chr_flip', 'stmt_drop', 'stmt_dup', 'stmt_swap', 'soup', 'redos')
 
 FLIP = {
     'number': ["'7'", '"00000000-0000-0000-0000-000000000007"', '7.5', 'TRUE', 'seven', '-7', '99999999999999999999999999',
@@ -46,7 +46,8 @@ FLIP = {
     'string': ['17', '1.25', '"00000000-0000-0000-0000-000000000001"', 'TRUE', 'abc', "''", "'\n'"],
     'guid': ["'00000000-0000-0000-0000-000000000001'", '42', '"not-a-guid"', '""', 'FALSE', '"zzzzzzzz-0000-0000-0000-000000000001"',
              '"00000000-0000-0000-0000-00000000%1"', "'100%'"],
-    'ident': ['123', "'ident'", 'TABLE', 'M', 'MC', '1C', 'R9', '_x'],
+    'ident': ['123', "'ident'", 'TABLE', 'M', 'MC', '1C', 'R9', '_x', '__class__', '__dict__', '__metaclass__', '__init__',
+              '__doc__'],
     'punct': [',', '(', ')', ';', '-', ''],
 }
 CHARS = "aZ0_'\"-;,()\n \t.\\\x00éR1\xa0\x0b\u2028&"
@@ -56,6 +57,53 @@ SOUP = ['CREATE', 'TABLE', 'INSERT', 'INTO', 'VALUES', 'ROP', 'REF_ID', 'FROM', 
 
 
 PROBE = "CREATE TABLE Probe_ (\n    A INTEGER,\n\n    B STRING\n);\nINSERT INTO Probe_\n  VALUES (1,\n  @);\n"
+# "arbitrary strings": legal-looking but odd texts a model file may contain after hand editing or from another tool;
+# each goes through the same protocol (accepted or ParsingException; build succeeds or raises a documented exception)
+ODD = [
+    "CREATE TABLE Odd_ (__class__ INTEGER); INSERT INTO Odd_ VALUES (1);",
+    "CREATE TABLE Odd_ (__dict__ STRING); INSERT INTO Odd_ VALUES ('a');",
+    "CREATE TABLE Odd_ (__metaclass__ INTEGER); INSERT INTO Odd_ VALUES (1);",
+    "CREATE TABLE Odd_ (__init__ INTEGER, __str__ STRING, __doc__ STRING); INSERT INTO Odd_ VALUES (1, 'a', 'b');",
+    "INSERT INTO Odd_ (__class__) VALUES (1);",
+    "INSERT INTO Odd_ (__dict__, x) VALUES (1, 2);",
+    "CREATE TABLE Odd_ (a INTEGER, a INTEGER); INSERT INTO Odd_ VALUES (1, 2);",
+    "CREATE TABLE Odd_ (a INTEGER, A STRING); INSERT INTO Odd_ VALUES (1, 'x');",
+    "CREATE TABLE Odd_ (); INSERT INTO Odd_ VALUES ();",
+    "INSERT INTO Odd_ VALUES ();",
+    "CREATE TABLE Odd_ (a INTEGER); CREATE TABLE odd_ (b STRING);",
+    "CREATE TABLE Odd_ (a INTEGER); CREATE TABLE Odd2_ (b INTEGER); CREATE ROP REF_ID R1 FROM 1 Odd_ () TO 1 Odd2_ (); "
+    "INSERT INTO Odd_ VALUES (1); INSERT INTO Odd2_ VALUES (1);",
+    "CREATE TABLE Odd_ (a INTEGER); CREATE UNIQUE INDEX I1 ON Odd_ ();",
+    "CREATE UNIQUE INDEX I1 ON Nope_ (a);",
+    "CREATE TABLE Odd_ (a INTEGER); CREATE UNIQUE INDEX I1 ON Odd_ (nope); INSERT INTO Odd_ VALUES (1);",
+    "CREATE TABLE Odd_ (a UNKNOWN_T); INSERT INTO Odd_ VALUES (1);",
+    "CREATE TABLE Odd_ (a INTEGER); INSERT INTO Odd_ VALUES (1, 2, 3);",
+    "CREATE TABLE Odd_ (a INTEGER); INSERT INTO Odd_ (b) VALUES (1);",
+    "CREATE TABLE Odd_ (a INTEGER); INSERT INTO Odd_ (a, a) VALUES (1, 2);",
+    "CREATE TABLE Odd_ (a UNIQUE_ID); INSERT INTO Odd_ VALUES (\"\");",
+    "CREATE TABLE Odd_ (a BOOLEAN); INSERT INTO Odd_ VALUES (2);",
+    "CREATE TABLE Odd_ (a BOOLEAN); INSERT INTO Odd_ VALUES ('x');",
+    "CREATE TABLE Odd_ (a STRING); INSERT INTO Odd_ VALUES (5);",
+    "CREATE TABLE Odd_ (a REAL); INSERT INTO Odd_ VALUES (TRUE);",
+    "CREATE TABLE Odd_ (a INTEGER); CREATE TABLE Odd2_ (b INTEGER, c INTEGER); CREATE ROP REF_ID R1 FROM 1 Odd_ (a) TO 1 Odd2_ (b, c); "
+    "INSERT INTO Odd_ VALUES (1); INSERT INTO Odd2_ VALUES (1, 1);",
+    "CREATE TABLE Odd_ (a INTEGER, d INTEGER); CREATE TABLE Odd2_ (b INTEGER); CREATE ROP REF_ID R1 FROM 1 Odd_ (a, d) TO 1 Odd2_ (b); "
+    "INSERT INTO Odd_ VALUES (1, 1); INSERT INTO Odd2_ VALUES (1);",
+    "CREATE TABLE Odd_ (a INTEGER); INSERT INTO Odd_ VALUES (1); CREATE ROP REF_ID R1 FROM 1 Odd_ (a) TO 1 Odd_ (a);",
+    "CREATE TABLE Odd_ (a INTEGER); CREATE ROP REF_ID R1 FROM 1 Odd_ (a) TO 1 Nope_ (b);",
+    "CREATE TABLE Odd_ (a INTEGER); CREATE ROP REF_ID R99999999999999999999 FROM 1 Odd_ (a) TO 1 Odd_ (a);",
+    "INSERT INTO Odd_ VALUES (1); INSERT INTO Odd_ VALUES ('a');",
+    "INSERT INTO Odd_ VALUES (1); INSERT INTO Odd_ VALUES (1, 2);",
+    "INSERT INTO Odd_ (a) VALUES (1); INSERT INTO Odd_ (b) VALUES (2);",
+    "CREATE TABLE Odd_ (a INTEGER); INSERT INTO Odd_ VALUES (- 1);",
+    "CREATE TABLE Odd_ (a INTEGER); INSERT INTO Odd_ VALUES (99999999999999999999999999999999999999999999);",
+    "CREATE TABLE Odd_ (a REAL); INSERT INTO Odd_ VALUES (" + "9" * 400 + ".5);",
+    "CREATE TABLE Odd_ (a UNIQUE_ID); INSERT INTO Odd_ VALUES (340282366920938463463374607431768211456);",
+    "CREATE TABLE Odd_ (a UNIQUE_ID); INSERT INTO Odd_ VALUES (-1);",
+    "CREATE TABLE Odd_ (a UNIQUE_ID); INSERT INTO Odd_ VALUES (\"00000000-0000-0000-0000-00000000000\");",
+    "CREATE TABLE M (MC M); INSERT INTO M VALUES (1);",
+    "CREATE TABLE Odd_ (a INTEGER); CREATE TABLE Odd2_ (b INTEGER); CREATE ROP REF_ID R1 FROM M Odd_ (a) TO MC Odd2_ (b);",
+]
 REDOS_OPEN = ["'", '"', '--', "INSERT INTO X VALUES ('", 'INSERT INTO X VALUES ("', 'INSERT INTO X VALUES (1.', 'CREATE ROP REF_ID R',
               'INSERT INTO X VALUES (-', "CREATE TABLE X (A STRING); INSERT INTO X VALUES ('"]
 REDOS_UNIT = ['a', "''", '\\', '\\"', "'x", ' ', '\n', '1', '.', '-', '--', '\t', 'é', "''''"]
@@ -281,6 +329,8 @@ class LoadFaultEngine(Engine):
             ops.append({'k': 'soup', 's': start, 'w': [rng.randrange(len(SOUP)) for _ in range(n)]})
         if tier == 'quick' or second:
             rng.shuffle(ops)
+        if b % 24 == 3 and not second:
+            ops = [{'k': 'odd', 's': start, 'i': i} for i in range(len(ODD))] + ops
         if b % 16 == 0 and not second:
             # pathological repetition probes (unterminated token + long run of one unit), shortest first,
             # before everything else: they find a back-tracking pattern in seconds instead of minutes
@@ -525,6 +575,9 @@ class LoadFaultEngine(Engine):
         stmt = cp.stmts[si][1]
         k = op['k']
         ctx = [cp.stmts[j][1] for j in range(max(start, si - 2), si)]
+        if k == 'odd':
+            damaged = ODD[op['i'] % len(ODD)]
+            return damaged, damaged
         if k == 'redos':
             damaged = REDOS_OPEN[op['o']] + REDOS_UNIT[op['u']] * op['n']
             return ''.join(ctx[-1:]) + '\n' + damaged, damaged
